@@ -206,7 +206,7 @@ impl StorageEngine {
     /// A deadline is kept, reported (PTTL) and written to the dump as signed 64-bit unix milliseconds, as in
     /// Redis: a time to live whose deadline does not fit is refused ("invalid expire time") instead of wrapping in
     /// those conversions or overflowing where the snapshot adds it to the wall clock
-    fn check_ttl(expires_in: Duration) -> Result<()> {
+    pub fn check_ttl(expires_in: Duration) -> Result<()> {
         let now_ms = SystemTime::now().duration_since(UNIX_EPOCH).map(|d| d.as_millis()).unwrap_or(0);
         match expires_in.as_millis().checked_add(now_ms) {
             Some(deadline) if deadline <= i64::MAX as u128 => Ok(()),
